@@ -97,6 +97,37 @@ def run(tier, seed):
         out.absorb("Trace_Xdg", checked, classes, label="config_dir direct and through the enum")
     except vlib.Stall as st:
         vlib.stall_violation(out, st, "xdgprobe")
+    # every call of the C02 grid on a sample of its trees, once on the backend types and once through the Vfs enum (real filesystem
+    # sandbox and Memfs): results - error kinds included - and the observed trees of the real-filesystem side must be identical
+    try:
+        vlib.build("grid")
+        runs = {}
+        for route in ("direct", "enum"):
+            dg = vlib.sub("grid-route")            # the same sandbox path for both routes (absolute link texts contain it)
+            runs[route] = vlib.run_workers("grid", ["--tier", tier, "--sandbox", os.path.join(dg, "sb"), "--stride", "7" if thorough else "37", "--route", route], 8, dg, route,
+                                           stall_s=30, env={"HOME": "/h"}, clean_env=True)
+        nsteps = 0
+        done = False
+        for fa, fb in zip(sorted(runs["direct"]), sorted(runs["enum"])):
+            if done:
+                break
+            with open(fa) as x, open(fb) as y:
+                for la, lb in zip(x, y):
+                    ra, rb = json.loads(la), json.loads(lb)
+                    for sa, sb in zip(ra["steps"], rb["steps"]):
+                        nsteps += 1
+                        if sa["c"] == sb["c"] and (sa["std"] != sb["std"] or sa["mem"]["r"] != sb["mem"]["r"]):
+                            side = "stdfs" if sa["std"] != sb["std"] else "memfs"
+                            a, b = (sa["std"], sb["std"]) if side == "stdfs" else (sa["mem"], sb["mem"])
+                            out.add_violation(["route-differs", "grid:" + side, sa["c"]["op"], "direct:" + a["r"]["o"], "enum:" + b["r"]["o"]],
+                                              record=dict(call=sa["c"], direct=a, enum=b, tree=ra.get("tree")), validator="route-compare")
+                            done = True
+                            break
+                    if done:
+                        break
+        out.cov["grid_steps_compared_direct_vs_enum"] = nsteps
+    except vlib.Stall as st:
+        vlib.stall_violation(out, st, "grid:route")
     out.finish(dict(rule="the same seeded histories (random with respelled arguments, link grid, data) executed on Memfs directly and through Vfs::Memfs; both transcripts validated by "
                          "Trace_Vfs and compared event for event; every entry() result also carries the VfsEntry accessors vs the wrapped entry's accessors (wrap flag); "
                          "Vfs::Stdfs routing is compared in C02"))
